@@ -2,6 +2,8 @@ import QR.Model.Styled
 import QR.Proofs.Styled
 import QR.Proofs.Styled2
 import QR.Proofs.Pinned
+import QR.Proofs.SourceTieT4
+import QR.Proofs.SourceTieT5
 /-
 C14 - styled images: colour logic on exact pixels and embedded-image geometry.  Antialiased drawers, gradients' float
 rounding and Pillow's paste/resize are validated on real Pillow by the check (partial, see DESIGN.md 6/C14).
@@ -73,6 +75,155 @@ example : paintColour [255, 255, 255, 255] = [255, 255, 255, 255] ∧
     default-ish case: 33 modules of 10 px, ratio 1/4 -/
 example : logoGeometry 60 6 13 = (24, 12) ∧ logoGeometry 63 7 8 = (21, 21) ∧ logoGeometry 330 10 82 = (120, 90) := by
   decide
+
+
+/-! ### Source tie, part 2 (T2 plugins `tools/t2_fragments/`): (second plugin round, `frag_c.py`) the hand-written Model equals the definitions translated from
+    /repo's current Python AST (`QR.Gen.Code`, regenerated on every run). Restated verbatim from `QR/Proofs/SourceTie*.lean`. -/
+section SourceTieT2b
+open QR.Model QR.Gen QR.Gen.Code QR.SourceTieT
+
+/-- `extrap_num`: `None` when the two numbers coincide, else the quotient (the Model inlines this in `extrapColor`) -/
+theorem C14_source_extrapNum_src (n1 n2 v : Int) :
+    Code.cm_extrap_num n1 n2 v = if n2 = n1 then none else some ((v - n1 : Int) / (n2 - n1 : Int) : Rat) :=
+  QR.SourceTieT.extrapNum_src n1 n2 v
+
+/-- `interp_num` is one channel of the Model's `interpColor` -/
+theorem C14_source_interpNum_src (n1 n2 : Int) (norm : Rat) :
+    truncInt (n2 * norm + n1 * (1 - norm)) = Code.cm_interp_num n1 n2 norm :=
+  QR.SourceTieT.interpNum_src n1 n2 norm
+
+/-- **`extrap_color` complete** -/
+theorem C14_source_extrapColorMean_src (c1 c2 ci : Colour) :
+    mean (extrapColor c1 c2 ci) = Code.cm_extrap_color c1 c2 ci :=
+  QR.SourceTieT.extrapColorMean_src c1 c2 ci
+
+/-- **`interp_color`**, for every `col2` that has a channel for every channel of `col1` (otherwise Python raises
+    IndexError at `col2[i]`) -/
+theorem C14_source_interpColor_src (c1 c2 : Colour) (norm : Rat) (h : c1.length ≤ c2.length) :
+    interpColor c1 c2 norm = Code.cm_interp_color c1 c2 norm :=
+  QR.SourceTieT.interpColor_src c1 c2 norm h
+
+theorem C14_source_getBgPixel_src (back : Colour) (x y : Nat) : Code.cm_get_bg_pixel back x y = back :=
+  QR.SourceTieT.getBgPixel_src back x y
+
+/-- **the loop body of `QRColorMask.apply_mask`**: it reads pixel (x, y) and writes, at (x, y), the Model's `applyMaskPixel`
+    of what it read (`fg x y` stands for `self.get_fg_pixel(image, x, y)`; the hypothesis is the one of `interp_color`) -/
+theorem C14_source_applyMaskPixel_src (back paint : Colour) (fg : Nat → Nat → Colour) (image : Nat → Nat → Colour) (x y : Nat)
+    (h : back.length ≤ (fg x y).length) :
+    Code.cm_apply_mask_body back paint fg image x y
+      = Code.cm_putpixel image (x, y) (applyMaskPixel back paint (fg x y) (image x y)) :=
+  QR.SourceTieT.applyMaskPixel_src back paint fg image x y h
+
+/-- **`QRColorMask.apply_mask`, the whole loop nest** (`for x in range(width): for y in range(height): ...` on an image
+    seen as a function of x and y): every pixel inside `width × height` is replaced by the Model's `applyMaskPixel` of
+    its *original* value, every other pixel is untouched.  `fg x y` is `get_fg_pixel(image, x, y)` (for all masks of
+    colormasks.py it does not depend on the pixels of `image`). -/
+theorem C14_source_applyMask_src (back paint : Colour) (fg : Nat → Nat → Colour) (width height : Nat) (image : Nat → Nat → Colour)
+    (hfg : ∀ x y, back.length ≤ (fg x y).length) (a b : Nat) :
+    Code.cm_apply_mask back paint fg width height image a b
+      = if a < width ∧ b < height then applyMaskPixel back paint (fg a b) (image a b) else image a b :=
+  QR.SourceTieT.applyMask_src back paint fg width height image hfg a b
+
+/-- the branch structure: nothing happens iff back = (255, 255, 255) and front = (0, 0, 0); otherwise the base class's loop
+    runs with the constant foreground `front_color` -/
+theorem C14_source_solidApplyMask_src (back front paint : Colour) (w h : Nat) (image : Nat → Nat → Colour) :
+    Code.cm_solid_apply_mask back front paint w h image
+      = if back = [255, 255, 255] ∧ front = [0, 0, 0] then image
+        else Code.cm_apply_mask back paint (fun _ _ => front) w h image :=
+  QR.SourceTieT.solidApplyMask_src back front paint w h image
+
+/-- **the fast path is sound on grey images** (what the drawers produce: black, white, and antialiasing greys): when
+    the fast-path condition holds and the paint colour is black, skipping the loop (`pass`) gives the same image as
+    running the base class's loop - in exact arithmetic -/
+theorem C14_source_solidFastPath_src (back front paint : Colour) (w h : Nat) (image : Nat → Nat → Colour)
+    (hc : Code.cm_solid_fast_path back front = true) (hp : paint = [0, 0, 0])
+    (hg : ∀ a b, ∃ v, image a b = [v, v, v]) :
+    Code.cm_solid_apply_mask back front paint w h image
+      = Code.cm_apply_mask back paint (Code.cm_solid_get_fg_pixel front) w h image :=
+  QR.SourceTieT.solidFastPath_src back front paint w h image hc hp hg
+
+/-- `x / width` is in [0, 1] for every column of the image -/
+theorem C14_source_horizontalNorm_src (width height x y : Int) (h0 : 0 ≤ x) (h1 : x < width) :
+    0 ≤ Code.cm_horizontal_norm width height x y ∧ Code.cm_horizontal_norm width height x y ≤ 1 :=
+  QR.SourceTieT.horizontalNorm_src width height x y h0 h1
+
+/-- `y / width` (the source divides by the *width*) is in [0, 1] for every row `y < width` -/
+theorem C14_source_verticalNorm_src (width height x y : Int) (h0 : 0 ≤ y) (h1 : y < width) :
+    0 ≤ Code.cm_vertical_norm width height x y ∧ Code.cm_vertical_norm width height x y ≤ 1 :=
+  QR.SourceTieT.verticalNorm_src width height x y h0 h1
+
+/-- `max(abs(x - width / 2), abs(y - width / 2)) / (width / 2)` is in [0, 1] for `0 ≤ x, y < width` -/
+theorem C14_source_squareNorm_src (width height x y : Int) (hx0 : 0 ≤ x) (hx1 : x < width) (hy0 : 0 ≤ y) (hy1 : y < width) :
+    0 ≤ Code.cm_square_norm width height x y ∧ Code.cm_square_norm width height x y ≤ 1 :=
+  QR.SourceTieT.squareNorm_src width height x y hx0 hx1 hy0 hy1
+
+/-- the radial normalisation `sqrt(A) / (sqrt(2) * width / 2)`, translated as the pair (q, r) meaning q·√r: for
+    `0 ≤ x, y < width` we have `0 ≤ q`, `0 ≤ r` and `q² · r ≤ 1`, i.e. with a real square root the value q·√r is in [0, 1] -/
+theorem C14_source_radialNorm_src (width height x y : Int) (hx0 : 0 ≤ x) (hx1 : x < width) (hy0 : 0 ≤ y) (hy1 : y < width) :
+    0 ≤ (Code.cm_radial_norm_surd width height x y).1 ∧ 0 ≤ (Code.cm_radial_norm_surd width height x y).2 ∧
+    (Code.cm_radial_norm_surd width height x y).1 * (Code.cm_radial_norm_surd width height x y).1
+      * (Code.cm_radial_norm_surd width height x y).2 ≤ 1 :=
+  QR.SourceTieT.radialNorm_src width height x y hx0 hx1 hy0 hy1
+
+/-- every colour mask class that sets `has_transparency` sets it to `len(self.back_color) == 4` (the base class: the
+    constant `False` together with a 3-channel `back_color`), and these are all the classes that set it -/
+theorem C14_source_hasTransparency_src (back : Colour) :
+    spil_mask_classes = ["QRColorMask", "SolidFillColorMask", "RadialGradiantColorMask", "SquareGradiantColorMask",
+      "HorizontalGradiantColorMask", "VerticalGradiantColorMask", "ImageColorMask"] ∧
+    spil_has_transparency_QRColorMask = decide (spil_back_color_QRColorMask.length = 4) ∧
+    spil_has_transparency_SolidFillColorMask back = decide (back.length = 4) ∧
+    spil_has_transparency_RadialGradiantColorMask back = decide (back.length = 4) ∧
+    spil_has_transparency_SquareGradiantColorMask back = decide (back.length = 4) ∧
+    spil_has_transparency_HorizontalGradiantColorMask back = decide (back.length = 4) ∧
+    spil_has_transparency_VerticalGradiantColorMask back = decide (back.length = 4) ∧
+    spil_has_transparency_ImageColorMask back = decide (back.length = 4) :=
+  QR.SourceTieT.hasTransparency_src back
+
+/-- **paint colour**: for every mask class of colormasks.py (and the base class with its class attributes) -/
+theorem C14_source_paintColour_src (back : Colour) :
+    paintColour back = spil_paint_color back (spil_has_transparency_SolidFillColorMask back) ∧
+    paintColour back = spil_paint_color back (spil_has_transparency_RadialGradiantColorMask back) ∧
+    paintColour back = spil_paint_color back (spil_has_transparency_SquareGradiantColorMask back) ∧
+    paintColour back = spil_paint_color back (spil_has_transparency_HorizontalGradiantColorMask back) ∧
+    paintColour back = spil_paint_color back (spil_has_transparency_VerticalGradiantColorMask back) ∧
+    paintColour back = spil_paint_color back (spil_has_transparency_ImageColorMask back) ∧
+    paintColour spil_back_color_QRColorMask = spil_paint_color spil_back_color_QRColorMask spil_has_transparency_QRColorMask :=
+  QR.SourceTieT.paintColour_src back
+
+/-- the mode (no Model counterpart: stated as a characterisation): RGBA exactly when the mask has transparency or there is
+    an embedded image with an alpha band -/
+theorem C14_source_styledNewImageMode_src (ht ei : Bool) (bands : List String) :
+    spil_new_image_mode ht ei bands = if ht = true ∨ (ei = true ∧ "A" ∈ bands) then "RGBA" else "RGB" :=
+  QR.SourceTieT.styledNewImageMode_src ht ei bands
+
+/-- **logo geometry** `Model.logoGeometry total box w` = (offset, side) is the position `(offset, offset)` and the resize
+    size `(side, side)` of the source, whenever `int(w / 2) ≤ int(total / 2)` (guaranteed by the documented range
+    `0 ≤ embeded_image_ratio ≤ 1`, see `logoGeometry_ratio_src`).  No hypothesis on `box` (Python raises
+    ZeroDivisionError for `box_size = 0`, which `_check_box_size` excludes). -/
+theorem C14_source_logoGeometry_src (total height box w : Nat) (hw : w / 2 ≤ total / 2) :
+    spil_logo_box_of (total : Int) (height : Int) (box : Int) (w : Int) =
+      ((((logoGeometry total box w).1 : Int), ((logoGeometry total box w).1 : Int)),
+       (((logoGeometry total box w).2 : Int), ((logoGeometry total box w).2 : Int))) :=
+  QR.SourceTieT.logoGeometry_src total height box w hw
+
+/-- **logo geometry, whole computation** (`total_width`, `logo_width_ish`, `logo_offset`, position, resize size) for every
+    ratio in the documented range `0 ≤ embeded_image_ratio ≤ 1`: the Model's `w` is `int(total_width * ratio)` (exact real
+    product) -/
+theorem C14_source_logoGeometry_ratio_src (total height box : Nat) (ratio : Rat) (h0 : 0 ≤ ratio) (h1 : ratio ≤ 1) :
+    spil_logo_box (total : Int) (height : Int) (box : Int) ratio =
+      ((((logoGeometry total box (truncInt ((total : Int) * ratio)).toNat).1 : Int),
+        ((logoGeometry total box (truncInt ((total : Int) * ratio)).toNat).1 : Int)),
+       (((logoGeometry total box (truncInt ((total : Int) * ratio)).toNat).2 : Int),
+        ((logoGeometry total box (truncInt ((total : Int) * ratio)).toNat).2 : Int))) :=
+  QR.SourceTieT.logoGeometry_ratio_src total height box ratio h0 h1
+
+/-- the hypothesis of `logoGeometry_src` cannot be dropped: for a ratio above 1 (outside the documented range) the source
+    computes a negative offset and a logo larger than the image, the Model (natural-number subtraction) does not -/
+theorem C14_source_logoGeometry_outside_range :
+    spil_logo_box_of 100 100 10 200 = ((-50, -50), (200, 200)) ∧ logoGeometry 100 10 200 = (0, 100) :=
+  QR.SourceTieT.logoGeometry_outside_range
+
+end SourceTieT2b
 
 /-- the Python functions this property's model mirrors have, in /repo's current working tree, exactly the normalised
     ASTs the model was written and validated against (fingerprints regenerated by T1 on every run) -/
